@@ -14,7 +14,7 @@
 use crate::keys;
 use crate::params;
 use mc_core::blake2b::{blake2b_224, blake2b_256};
-use mc_core::refcbor::{Kind, Node};
+use mc_core::refcbor::Node;
 use mc_core::{json, Value};
 
 // ------------------------------------------------------------------ eras
@@ -527,6 +527,13 @@ pub struct TxSpec {
     pub network_id: Option<u8>,
     pub wits: Wits,
     pub valid: bool,
+    /// extension hook: further body fields as (key, value), merged in key order
+    /// (certificates = 4, withdrawals = 5, ... — not used by C33..C37)
+    pub extra_body: Vec<(u64, Node)>,
+    /// lovelace the certificates of `extra_body` deposit (> 0) or get refunded
+    /// (< 0); only enters the computation of the `Coin::Change` output (0 for
+    /// every case of C33..C38)
+    pub deposit: i128,
 }
 
 impl TxSpec {
@@ -550,6 +557,8 @@ impl TxSpec {
             network_id: None,
             wits: Wits::default(),
             valid: true,
+            extra_body: vec![],
+            deposit: 0,
         }
     }
 }
@@ -808,6 +817,10 @@ fn body_node(case: &Case, fee: u64, change: u64, total_coll: u64) -> Node {
     if let Some(c) = &t.reference_inputs {
         m.push((Node::uint(18), Node::array(c.iter().map(|i| i.node()).collect())));
     }
+    for (k, v) in &t.extra_body {
+        m.push((Node::uint(*k), v.clone()));
+    }
+    m.sort_by_key(|(k, _)| k.as_u64().unwrap_or(u64::MAX));
     Node::map(m)
 }
 
@@ -842,7 +855,11 @@ pub fn build_resolved(case: &Case) -> (Built, Resolved) {
     let mut change;
     let mut rounds = 0;
     let (body, l) = loop {
-        change = in_sum.saturating_sub(fee as u128).saturating_sub(fixed_out).min(u64::MAX as u128) as u64;
+        change = if t.deposit == 0 {
+            in_sum.saturating_sub(fee as u128).saturating_sub(fixed_out).min(u64::MAX as u128) as u64
+        } else {
+            (in_sum as i128 - fee as i128 - fixed_out as i128 - t.deposit).clamp(0, u64::MAX as i128) as u64
+        };
         let body = body_node(case, fee, change, total_coll);
         let l = 1 + body.to_vec().len() as u64 + wits_len + aux_len;
         let want = match t.fee {
@@ -884,6 +901,3 @@ pub fn build_resolved(case: &Case) -> (Built, Resolved) {
         Resolved { fee, change, ledger_size: l },
     )
 }
-
-#[allow(dead_code)]
-fn _unused(_: Kind) {}
